@@ -25,45 +25,61 @@ pub fn check(c: &Case, obs: &mut Obs) {
     }
 }
 
+// Mirror of the serialised naive-Bayes models (read back from named MessagePack, which keeps non-finite floats).
+#[derive(serde::Deserialize)]
+struct MirrorArr {
+    data: Vec<f64>,
+}
+#[derive(serde::Deserialize)]
+struct MirrorInfo {
+    prior: f64,
+    #[serde(default)]
+    theta: Option<MirrorArr>,
+    #[serde(default)]
+    sigma: Option<MirrorArr>,
+    #[serde(default)]
+    feature_log_prob: Option<MirrorArr>,
+}
+#[derive(serde::Deserialize)]
+struct MirrorModel {
+    class_info: std::collections::HashMap<usize, MirrorInfo>,
+}
+
 /// Joint log-likelihood of one class of a serialised naive-Bayes model for one row (own arithmetic, f64).
-fn nb_jll(info: &serde_json::Value, gaussian: bool, row: &[f64]) -> Option<f64> {
-    let arr = |k: &str| -> Option<Vec<f64>> { info.get(k)?.get("data")?.as_array()?.iter().map(|v| v.as_f64()).collect() };
-    let prior = info.get("prior")?.as_f64()?;
+fn nb_jll(info: &MirrorInfo, gaussian: bool, row: &[f64]) -> Option<f64> {
     if gaussian {
-        let (theta, sigma) = (arr("theta")?, arr("sigma")?);
+        let (theta, sigma) = (&info.theta.as_ref()?.data, &info.sigma.as_ref()?.data);
         if theta.len() != row.len() || sigma.len() != row.len() {
             return None;
         }
-        let mut s = prior.ln();
+        let mut s = info.prior.ln();
         for j in 0..row.len() {
             s += -0.5 * (2.0 * std::f64::consts::PI * sigma[j]).ln() - 0.5 * (row[j] - theta[j]).powi(2) / sigma[j];
         }
         Some(s)
     } else {
-        let flp = arr("feature_log_prob")?;
+        let flp = &info.feature_log_prob.as_ref()?.data;
         if flp.len() != row.len() {
             return None;
         }
-        Some(prior.ln() + row.iter().zip(&flp).map(|(a, b)| a * b).sum::<f64>())
+        Some(info.prior.ln() + row.iter().zip(flp).map(|(a, b)| a * b).sum::<f64>())
     }
 }
 
-/// Are the two answers for this row tied (within `rel`) under the model's own class statistics?
+/// Are the two answers for this row tied (within `rel`, or both exactly -inf) under the model's own class statistics?
 pub(crate) fn nb_tied<M: serde::Serialize>(model: &M, gaussian: bool, row: &[f64], a: usize, b: usize, rel: f64) -> bool {
-    let j = match serde_json::to_value(model) {
-        Ok(j) => j,
-        Err(_) => return false,
-    };
-    let ci = match j.get("class_info") {
-        Some(c) => c,
+    let mirror: MirrorModel = match rmp_serde::to_vec_named(model).ok().and_then(|b| rmp_serde::from_slice(&b).ok()) {
+        Some(m) => m,
         None => return false,
     };
-    let (ja, jb) = match (ci.get(a.to_string()), ci.get(b.to_string())) {
+    let (ja, jb) = match (mirror.class_info.get(&a), mirror.class_info.get(&b)) {
         (Some(x), Some(y)) => (nb_jll(x, gaussian, row), nb_jll(y, gaussian, row)),
         _ => return false,
     };
     match (ja, jb) {
         (Some(x), Some(y)) if x.is_finite() && y.is_finite() => (x - y).abs() <= rel * (1.0 + x.abs().max(y.abs())),
+        // both -inf (a zero probability with alpha = 0): an exact tie as well
+        (Some(x), Some(y)) => x == y,
         _ => false,
     }
 }
